@@ -74,6 +74,13 @@ pub fn c07_probes() -> Vec<P> {
         P::Diff(all.clone(), a2(P::Comp(b.clone()))),
         (*a).clone(),
         (*b).clone(),
+        // n-ary forms with the predefined odd-id terms (sigma_plus, full) as operands
+        P::DiffL(a2(P::Union(sa.clone(), cat.clone())), vec![cat.clone(), sigplus.clone()]),
+        P::DiffL(sa.clone(), vec![sigplus.clone()]),
+        P::DiffL(cat.clone(), vec![all.clone()]),
+        P::UnionL(vec![sigplus.clone(), b.clone(), a.clone()]),
+        P::InterL(vec![sigplus.clone(), a.clone(), ca.clone()]),
+        P::Inter(a2(P::Concat(a.clone(), sigplus.clone())), a2(P::Concat(a.clone(), a.clone()))),
     ]
 }
 
@@ -440,7 +447,8 @@ fn c10_regexes(tier: Tier) -> Vec<P> {
     }
     // literal strings and classic search patterns
     let (a, b, c) = (A, A + 1, A + 2);
-    let words: Vec<Vec<u32>> = vec![vec![], vec![a], vec![a, b], vec![a, a], vec![a, a, b], vec![a, b, a], vec![a, b, c], vec![b, a, b], vec![a, b, a, b], vec![a, a, a]];
+    let mut words: Vec<Vec<u32>> = crate::strs::all_strings(&[a, b, c], 3);
+    words.extend([vec![a, b, a, b], vec![a, a, a, b], vec![a, a, b, a], vec![a, b, c, a, b]]);
     let lit: Vec<Arc<P>> = words.iter().map(|w| a2(P::Str(w.clone()))).collect();
     for l in &lit {
         v.push((**l).clone());
@@ -453,6 +461,14 @@ fn c10_regexes(tier: Tier) -> Vec<P> {
             v.push(P::Union(l.clone(), m.clone()));
             v.push(P::Concat(l.clone(), a2(P::Star(m.clone()))));
             v.push(P::Inter(a2(P::Comp(l.clone())), a2(P::Concat(a2(P::All), m.clone()))));
+        }
+    }
+    // unions of complements whose bodies are in (detectable) inclusion, inside a frame
+    for l in lit.iter().take(14) {
+        for m in lit.iter().take(14) {
+            let cu = a2(P::Union(a2(P::Comp(l.clone())), a2(P::Comp(a2(P::Concat(m.clone(), a2(P::All)))))));
+            v.push((*cu).clone());
+            v.push(P::Concat(a2(P::Ch(c)), a2(P::Concat(cu.clone(), a2(P::Ch(c))))));
         }
     }
     let ch = |x: u32| a2(P::Ch(x));
@@ -702,6 +718,56 @@ fn c16_pool(tier: Tier, family: usize) -> C16Pool {
             short = (0..progs.len()).step_by(3).collect();
             extras = (0..progs.len()).collect();
         }
+        // (iv) runs of character ranges bracketed by Sigma* (several rigid patterns on the right-hand side)
+        3 => {
+            let rng: Vec<Arc<P>> = vec![a.clone(), b.clone(), ab.clone(), sig.clone()];
+            let maxrun = if tier == Tier::Thorough { 4 } else { 3 };
+            let mut runs: Vec<Vec<Arc<P>>> = vec![];
+            let mut cur: Vec<Vec<Arc<P>>> = vec![vec![]];
+            for _ in 0..maxrun {
+                let mut nx = vec![];
+                for r in &cur {
+                    for e in &rng {
+                        let mut t = r.clone();
+                        t.push(e.clone());
+                        nx.push(t);
+                    }
+                }
+                runs.extend(nx.iter().cloned());
+                cur = nx;
+            }
+            let cat = |v: &[Arc<P>]| -> P {
+                let mut it = v.iter().rev();
+                let mut acc: Arc<P> = it.next().unwrap().clone();
+                for x in it {
+                    acc = a2(P::Concat(x.clone(), acc));
+                }
+                (*acc).clone()
+            };
+            let short_runs: Vec<&Vec<Arc<P>>> = runs.iter().filter(|r| r.len() <= 2 + (tier == Tier::Thorough) as usize).collect();
+            for r1 in &runs {
+                // R, Sigma* R, R Sigma*, Sigma* R Sigma*
+                let mut v = r1.clone();
+                progs.push(cat(&v));
+                v.insert(0, all.clone());
+                progs.push(cat(&v));
+                v.push(all.clone());
+                progs.push(cat(&v));
+                v.remove(0);
+                progs.push(cat(&v));
+            }
+            for r1 in &short_runs {
+                for r2 in &short_runs {
+                    // Sigma* R1 Sigma* R2 Sigma*
+                    let mut v: Vec<Arc<P>> = vec![all.clone()];
+                    v.extend(r1.iter().cloned());
+                    v.push(all.clone());
+                    v.extend(r2.iter().cloned());
+                    v.push(all.clone());
+                    progs.push(cat(&v));
+                }
+            }
+        }
         // (iii) long sequences over 6 elements (rigid/flexible patterns on both sides)
         _ => {
             let elems: Vec<Arc<P>> = vec![a.clone(), all.clone(), b.clone(), sig.clone(), ab.clone(), a2(P::Star(a.clone())), a2(P::Plus(b.clone()))];
@@ -741,7 +807,7 @@ fn c16_pool(tier: Tier, family: usize) -> C16Pool {
 
 pub struct C16Engine;
 const C16_NB: usize = 128;
-const C16_FAMILIES: usize = 3;
+const C16_FAMILIES: usize = 4;
 
 fn c16_pair(pool: &C16Pool, re: &mut ReManager, terms: &[RegLan], i: usize, j: usize, memo: &mut HashMap<(usize, usize), bool>) -> (bool, Option<String>) {
     let claimed = terms[i].included_in(terms[j]);
@@ -795,7 +861,7 @@ impl Engine for C16Engine {
         let sizes: Vec<usize> = (0..C16_FAMILIES).map(|f| c16_pool(ctx.tier, f).progs.len()).collect();
         Meta {
             level: "model_checking",
-            rule: format!("all ordered pairs (r, s) of three term pools ({} sequence terms with boolean combinations, {} level-1 programs, {} long concatenations): whenever r.included_in(s) is true, L(r) must be a subset of L(s) (product of the canonical reference DFAs, memoised per pair of languages); 'false' is never questioned; union(x, y), union(y, x) and union_list over short/extra terms must denote the union (product BFS of the derivative graph with the union of the reference DFAs); states/transitions count the union products, evaluations the ordered pairs; non-trivial = distinct ordered pairs for which included_in answered true", sizes[0], sizes[1], sizes[2]),
+            rule: format!("all ordered pairs (r, s) of four term pools ({} sequence terms with boolean combinations, {} level-1 programs, {} long concatenations, {} runs of ranges bracketed by Sigma*): whenever r.included_in(s) is true, L(r) must be a subset of L(s) (product of the canonical reference DFAs, memoised per pair of languages); 'false' is never questioned; union(x, y), union(y, x) and union_list over short/extra terms must denote the union (product BFS of the derivative graph with the union of the reference DFAs); states/transitions count the union products, evaluations the ordered pairs; non-trivial = distinct ordered pairs for which included_in answered true", sizes[0], sizes[1], sizes[2], sizes[3]),
             assumptions: vec!["inclusion of reference languages is decided on canonical minimal DFAs over the region alphabet".into()],
             exhaustive: true,
             space: "see rule".into(),
